@@ -318,14 +318,17 @@ __CPROVER_assigns(__CPROVER_object_whole(self), G_o, G_set_phy)
 #define RX_MAX 5
 #define RX_STRIDE 8
 struct pair_ptr { const uint8_t* first; const uint8_t* second; };
-enum { ROUTE_NONE = 0, ROUTE_CONTROL, ROUTE_L2CAP };
+enum { ROUTE_NONE = 0, ROUTE_CONTROL, ROUTE_L2CAP, ROUTE_DROPPED };
 struct rx_rec { size_t total, freed, handled; bool order_ok, stuck; uint8_t route[RX_MAX]; } G_rx;
 uint8_t G_rxmem[RX_MAX * RX_STRIDE]; bool W_tx_ok[RX_MAX], W_def[RX_MAX], W_disc[RX_MAX], W_l2[RX_MAX]; size_t G_k;
 #define LLID_OF(k) (G_rxmem[(k) * RX_STRIDE] & 3)
 static inline struct wbuf ll_next_ll_l2cap_received(void) { return G_rx.freed < G_rx.total ? (struct wbuf){ G_rxmem + G_rx.freed * RX_STRIDE, RX_STRIDE } : (struct wbuf){ 0, 0 }; }
 static inline struct rbuf ll_allocate_max_transmit_buffer(void) { return (G_rx.freed < RX_MAX && W_tx_ok[G_rx.freed]) ? (struct rbuf){ G_txmem, 29 } : (struct rbuf){ 0, 0 }; }
 /* a PDU is freed exactly once, right after it - the PDU at the head - was handled */
-static inline void ll_free_ll_l2cap_received(void) { if (!(G_rx.freed < G_rx.total && G_rx.handled == G_rx.freed + 1)) G_rx.order_ok = false; ++G_rx.freed; }
+/* a PDU that is neither LL control nor the start of an L2CAP PDU has nobody to go to: freeing it unhandled is how it is dropped */
+#define NOBODYS(k) (LLID_OF(k) != ll_control_pdu_code && LLID_OF(k) != lld_data_pdu_code)
+static inline void ll_free_ll_l2cap_received(void) { if (G_rx.freed < G_rx.total && G_rx.freed < RX_MAX && G_rx.handled == G_rx.freed && NOBODYS(G_rx.freed)) { ++G_rx.handled; G_rx.route[G_rx.freed] = ROUTE_DROPPED; }
+  if (!(G_rx.freed < G_rx.total && G_rx.handled == G_rx.freed + 1)) G_rx.order_ok = false; ++G_rx.freed; }
 static inline enum ll_result ll_handle_ll_control_data(struct ll* self, const struct wbuf* pdu, struct rbuf output)
 { size_t k = G_rx.freed; if (!(k < G_rx.total && k < RX_MAX && G_rx.handled == k && pdu->buffer == G_rxmem + k * RX_STRIDE && output.size != 0)) { G_rx.order_ok = false; return ll_result_go_ahead; }
   ++G_rx.handled; G_rx.route[k] = ROUTE_CONTROL; if (W_def[k]) self->defered_ll_control_pdu_ = *pdu; return W_disc[k] ? ll_result_disconnect : ll_result_go_ahead; }
@@ -334,27 +337,29 @@ static inline bool ll_handle_l2cap_input(const uint8_t* body, size_t n)
   if (W_l2[k]) { ++G_rx.handled; G_rx.route[k] = ROUTE_L2CAP; } return W_l2[k]; }
 #define IS_DEFERRED(self) ((self)->defered_ll_control_pdu_.buffer != 0 || (self)->defered_ll_control_pdu_.size != 0)
 /* what holds whenever the loop condition is evaluated */
+#define ROUTE_OF(k) (LLID_OF(k) == ll_control_pdu_code ? ROUTE_CONTROL : LLID_OF(k) == lld_data_pdu_code ? ROUTE_L2CAP : ROUTE_DROPPED)
 #define LAST_CONTROL (G_rx.freed >= 1 && LLID_OF(G_rx.freed - 1) == ll_control_pdu_code)
 #define RX_INV (G_rx.total <= RX_MAX && G_rx.freed <= G_rx.total && G_rx.handled == G_rx.freed && G_rx.order_ok && G_k < RX_MAX \
     /* every consumed PDU went where its LLID says */ \
-    && (G_k < G_rx.freed ==> G_rx.route[G_k] == (LLID_OF(G_k) == ll_control_pdu_code ? ROUTE_CONTROL : ROUTE_L2CAP)) && (G_k < G_rx.freed ==> (LLID_OF(G_k) == ll_control_pdu_code || (LLID_OF(G_k) == lld_data_pdu_code && W_state != state_disconnecting))) \
+    && (G_k < G_rx.freed ==> G_rx.route[G_k] == ROUTE_OF(G_k)) && ((G_k < G_rx.freed && LLID_OF(G_k) == lld_data_pdu_code) ==> W_state != state_disconnecting) \
     /* a disconnect / a pending indication comes from the PDU consumed last, and nothing was consumed behind it */ \
     && ((result == ll_result_disconnect) == (LAST_CONTROL && W_disc[G_rx.freed - 1])) && (IS_DEFERRED(self) == (LAST_CONTROL && W_def[G_rx.freed - 1])) \
     && (G_k + 1 < G_rx.freed ==> (!W_def[G_k] || LLID_OF(G_k) != ll_control_pdu_code) && (!W_disc[G_k] || LLID_OF(G_k) != ll_control_pdu_code)) \
     /* the loop gave up on the head PDU only because it cannot be handled now */ \
-    && (G_rx.stuck ==> (G_rx.freed < G_rx.total && (LLID_OF(G_rx.freed) == ll_control_pdu_code ? !W_tx_ok[G_rx.freed] : (LLID_OF(G_rx.freed) != lld_data_pdu_code || W_state == state_disconnecting || !W_l2[G_rx.freed])))))
+    && (G_rx.stuck ==> (G_rx.freed < G_rx.total && (LLID_OF(G_rx.freed) == ll_control_pdu_code ? !W_tx_ok[G_rx.freed] : (LLID_OF(G_rx.freed) == lld_data_pdu_code && (W_state == state_disconnecting || !W_l2[G_rx.freed]))))))
 enum ll_result handle_received_data(struct ll* self)
 __CPROVER_requires(LL_OK(self) && G_rx.total <= RX_MAX && G_rx.freed == 0 && G_rx.handled == 0 && G_rx.order_ok && !G_rx.stuck && G_k < RX_MAX)
 /* C21: while an indication waits for its instant nothing is consumed - and nothing else stops the processing: */
 __CPROVER_ensures(W_deferred ==> (G_rx.freed == 0 && G_rx.handled == 0 && __CPROVER_return_value == ll_result_go_ahead))
 /* C15: the received PDUs are consumed in order, each exactly once and by the handler its LLID names; a PDU is freed only after it was handled */
 __CPROVER_ensures(!W_deferred ==> (G_rx.total <= RX_MAX && G_rx.freed <= G_rx.total && G_rx.handled == G_rx.freed && G_rx.order_ok
-    && (G_k < G_rx.freed ==> G_rx.route[G_k] == (LLID_OF(G_k) == ll_control_pdu_code ? ROUTE_CONTROL : ROUTE_L2CAP))))
-/* it ends with the queue empty, with the PDU that asked for a disconnect or has to wait for its instant (consumed, nothing behind it is), or at a PDU that cannot be handled now */
+    && (G_k < G_rx.freed ==> G_rx.route[G_k] == ROUTE_OF(G_k))))
+/* it ends with the queue empty, with the PDU that asked for a disconnect or has to wait for its instant (consumed, nothing behind it is), or at a PDU that cannot be handled NOW - no transmit buffer for
+   the answer to a control PDU, L2CAP has no output buffer, the link is being closed. No PDU blocks the queue for good: one that is neither LL control nor L2CAP start is dropped */
 __CPROVER_ensures(!W_deferred ==> (G_rx.freed == G_rx.total || __CPROVER_return_value == ll_result_disconnect || IS_DEFERRED(self) || G_rx.stuck))
 __CPROVER_ensures((!W_deferred && __CPROVER_return_value == ll_result_disconnect) ==> (G_rx.freed >= 1 && W_disc[G_rx.freed - 1]))
 __CPROVER_ensures((!W_deferred && IS_DEFERRED(self)) ==> (G_rx.freed >= 1 && W_def[G_rx.freed - 1]))
-__CPROVER_ensures((!W_deferred && G_rx.stuck) ==> (G_rx.freed < G_rx.total && (LLID_OF(G_rx.freed) == ll_control_pdu_code ? !W_tx_ok[G_rx.freed] : (LLID_OF(G_rx.freed) != lld_data_pdu_code || W_state == state_disconnecting || !W_l2[G_rx.freed]))))
+__CPROVER_ensures((!W_deferred && G_rx.stuck) ==> (G_rx.freed < G_rx.total && (LLID_OF(G_rx.freed) == ll_control_pdu_code ? !W_tx_ok[G_rx.freed] : (LLID_OF(G_rx.freed) == lld_data_pdu_code && (W_state == state_disconnecting || !W_l2[G_rx.freed])))))
 __CPROVER_assigns(__CPROVER_object_whole(self), G_rx)
 {{received}}
 #define SETUP struct ll* s; W_t = nondet_u32(); W_out_pending = nondet_bool(); W_recv_disconnect = nondet_bool(); W_pending_disconnect = nondet_bool(); W_alloc_ok = nondet_bool(); W_cpr_rsp_pending = nondet_bool(); W_counter_after = nondet_u16(); \
